@@ -327,14 +327,14 @@ func verifyFunction(w *World, fn *ssa.Function, unroll int) *FuncResult {
 		for anchor, cl := range spec.SetAts {
 			for _, c := range cl {
 				if g.setAtUse[c] == 0 {
-					fr.Error = "contract-drift: setat anchor not found in the function: " + anchor
+					fr.Drift = append(fr.Drift, "anchor not found: setat "+anchor)
 				}
 			}
 		}
 		for anchor, cl := range spec.Asserts {
 			for _, c := range cl {
 				if g.assertUse[c] == 0 {
-					fr.Error = "contract-drift: assert anchor not found in the function: " + anchor
+					fr.Drift = append(fr.Drift, "anchor not found: assert "+anchor)
 				}
 			}
 		}
